@@ -46,9 +46,25 @@ def main():
                 json.dump(meta, open(meta_p, "w"), indent=1)
                 rows.append((sid, prop, "n/a", "patch does not apply"))
                 continue
+            others = {}
             try:
                 env = dict(os.environ, VERIF_ROOT=scratch)
                 out = sh(f"./run.sh {prop} quick", cwd=VERIF, env=env)
+                own_caught = out.returncode == 1 and any(l.startswith("VIOLATION ") for l in out.stdout.splitlines())
+                if not own_caught:
+                    # a change can break several properties: see whether the check of another property reports it
+                    for i in range(1, 21):
+                        other = "C%02d" % i
+                        if other == prop:
+                            continue
+                        o2 = sh(f"./run.sh {other} quick", cwd=VERIF, env=env)
+                        if o2.returncode == 1 and any(l.startswith("VIOLATION ") for l in o2.stdout.splitlines()):
+                            fired = []
+                            for line in o2.stdout.splitlines():
+                                m = re.match(r"\s+FAIL (\S+) (\S+) \[([^\]]+)\] (.*)", line)
+                                if m:
+                                    fired.append(m.group(2) + " " + m.group(3))
+                            others[other] = sorted(set(fired))
             finally:
                 sh(f"git apply -R {patch}", cwd=REPO)
             fails = []
@@ -65,6 +81,8 @@ def main():
                 "detected": detected,
                 "fired": fails,
             }
+            if others:
+                meta["checker"]["detected_by_other_checks"] = others
             if checkerr:
                 meta["checker"]["check_error"] = [l for l in out.stdout.splitlines() if l.startswith("CHECK-ERROR")][:3]
             if "needs_to_manifest" not in meta or not meta["needs_to_manifest"]:
@@ -76,8 +94,13 @@ def main():
                                       "ran the full test suites of both modules (failures re-run to rule out flakes) — all pass with the change; ran the demonstration (" + meta.get("demo_cmd", "?") +
                                       ") with the change (fails) and, after reverting the change, without it (passes); removed the worktree")
             json.dump(meta, open(meta_p, "w"), indent=1)
-            rows.append((sid, prop, "caught" if detected else ("CHECK-ERROR" if checkerr else "missed"),
-                         "; ".join(sorted({f["rule"] + " " + f["construct"] for f in fails}))[:400]))
+            if detected:
+                res, why = "caught", "; ".join(sorted({f["rule"] + " " + f["construct"] for f in fails}))[:400]
+            elif others:
+                res, why = "caught by " + ", ".join(sorted(others)), "; ".join(x for k in sorted(others) for x in others[k])[:400]
+            else:
+                res, why = ("CHECK-ERROR" if checkerr else "missed"), ""
+            rows.append((sid, prop, res, why))
             print(rows[-1])
     finally:
         shutil.rmtree(scratch, ignore_errors=True)
@@ -90,7 +113,8 @@ def main():
             for sid, prop, res, why in rows:
                 f.write(f"| {sid} | {prop} | {res} | {why} |\n")
             c = sum(1 for r in rows if r[2] == "caught")
-            f.write(f"\n{c} of {len(rows)} caught.\n")
+            c2 = sum(1 for r in rows if r[2].startswith("caught by"))
+            f.write(f"\n{c} of {len(rows)} caught by the check of their own property, {c2} more by the check of another property.\n")
 
 
 if __name__ == "__main__":
